@@ -200,14 +200,18 @@ func (env *Env) importedPkg(name string) *types.Package {
 		}
 	}
 	// well-known aliases in this repo
-	alias := map[string]string{"rtypes": "chain/types", "etypes": "eth/core/types", "estate": "eth/core/state", "agtypes": "gemmill/types", "gcmn": "gemmill/modules/go-common", "merkle": "gemmill/modules/go-merkle", "crypto": "gemmill/go-crypto", "wire": "gemmill/go-wire", "gtypes": "gemmill/types", "sm": "gemmill/state", "dbm": "gemmill/modules/go-db"}
-	if p, ok := alias[name]; ok {
+	if p, ok := pkgAliases[name]; ok {
 		if sp, ok := env.e.pkgByPath[p]; ok {
 			return sp.Pkg
 		}
 	}
 	return nil
 }
+
+// pkgAliases: import aliases used throughout the repository (and in contracts) for packages whose names clash.
+var pkgAliases = map[string]string{"rtypes": "chain/types", "etypes": "eth/core/types", "estate": "eth/core/state", "agtypes": "gemmill/types",
+	"gcmn": "gemmill/modules/go-common", "merkle": "gemmill/modules/go-merkle", "gcrypto": "gemmill/go-crypto", "wire": "gemmill/go-wire",
+	"gtypes": "gemmill/types", "sm": "gemmill/state", "dbm": "gemmill/modules/go-db", "ecommon": "eth/common", "ecore": "eth/core", "evmapp": "chain/app/evm"}
 
 func (env *Env) pkgObject(p *types.Package, name string) Val {
 	obj := p.Scope().Lookup(name)
@@ -737,6 +741,14 @@ func (e *Engine) resolveType(name string, pkg *types.Package) types.Type {
 	}
 	if i := strings.LastIndex(name, "."); i >= 0 {
 		pn, tn := name[:i], name[i+1:]
+		if full, ok := pkgAliases[pn]; ok {
+			if sp, ok := e.pkgByPath[full]; ok {
+				if obj := sp.Pkg.Scope().Lookup(tn); obj != nil {
+					return obj.Type()
+				}
+			}
+			return nil
+		}
 		if pkg != nil {
 			for _, imp := range pkg.Imports() {
 				if imp.Name() == pn || strings.HasSuffix(imp.Path(), "/"+pn) {
